@@ -1162,6 +1162,7 @@ class Client:
         key_prefix: bytes = b"",
         expire: Optional[int] = None,
     ) -> dict[Key, Any]:
+        keys = list(keys)
         prefixed_keys = [self.check_key(k, key_prefix=key_prefix) for k in keys]
         remapped_keys = dict(zip(prefixed_keys, keys))
 
